@@ -27,8 +27,7 @@ theorem generated_definitions_agree :
     Gen.V1.bigExponent = Gen.V3.bigExponent ∧ Gen.V2.bigExponent = Gen.V3.bigExponent ∧
     Gen.V1.digitCountWidth = Gen.V3.digitCountWidth ∧ Gen.V2.digitCountWidth = Gen.V3.digitCountWidth ∧
     Gen.V1.newFormatSpec = Gen.V2.newFormatSpec ∧
-    Gen.V1.gapLoopChecksErr = Gen.V3.gapLoopChecksErr ∧ Gen.V2.gapLoopChecksErr = Gen.V3.gapLoopChecksErr ∧
-    Gen.V1.monitorSrc = Gen.V2.monitorSrc := by
+    Gen.V1.gapLoopChecksErr = Gen.V3.gapLoopChecksErr ∧ Gen.V2.gapLoopChecksErr = Gen.V3.gapLoopChecksErr := by
   repeat' apply And.intro
   all_goals rfl
 
